@@ -380,8 +380,10 @@ func (c *caseGen) variadic(insert bool) []int {
 		n = 1
 	case x < 62:
 		n = 2
-	case x < 78:
+	case x < 77:
 		n = 3
+	case x < 78 && c.maxVar >= 4:
+		n = g.between(33, 70) // a long argument list (batch paths, size thresholds)
 	default:
 		n = g.between(4, c.maxVar)
 	}
